@@ -1039,4 +1039,140 @@ def prependAlias (s : St) (v off len tmp : Nat) : Option St := do
     let s ← putFront s v a b
     pure (setEmpty s tmp)
 
+/-! ### further read-only calls -/
+
+/-- `capacity()`: the capacity of an exclusively owned block, else 0 -/
+def capacity (s : St) (v : Nat) : Option Nat := do
+  let d ← desc s v
+  pure (if d.ref = 1 then d.cap else 0)
+
+/-- `isEmpty()` -/
+def isEmpty (s : St) (v : Nat) : Option Bool := do
+  let d ← desc s v
+  pure (d.len == 0)
+
+/-- `operator!=`: lengths differ, or `memcmp` over the first string's length is not 0 -/
+def notEqualS (s : St) (v w : Nat) : Option Bool := do
+  let dv ← desc s v
+  let dw ← desc s w
+  if dv.len ≠ dw.len then pure true
+  else do
+    let a ← contentVal s v
+    let b ← contentVal s w
+    pure (a != b)
+
+/-- `operator==(const char (&str)[N])` with the literal of region `r` (`N - 1` chars and the NUL) -/
+def equalLit (s : St) (v r : Nat) : Option Bool := do
+  let d ← desc s v
+  let n := (s.regs r).length - 1
+  if d.len ≠ n then pure false
+  else do
+    let a ← contentVal s v
+    pure (a == (s.regs r).take n)
+
+/-- `operator!=(const char (&str)[N])` -/
+def notEqualLit (s : St) (v r : Nat) : Option Bool := do
+  let d ← desc s v
+  let n := (s.regs r).length - 1
+  if d.len ≠ n then pure true
+  else do
+    let a ← contentVal s v
+    pure (a != (s.regs r).take n)
+
+inductive Rel where
+  | lt | le | gt | ge
+  deriving DecidableEq, Repr
+
+def Rel.holds : Rel → Int → Bool
+  | .lt, r => r < 0
+  | .le, r => r ≤ 0
+  | .gt, r => r > 0
+  | .ge, r => r ≥ 0
+
+/-- `operator<`, `operator<=`, `operator>`, `operator>=`: `compare(other) <rel> 0` -/
+def relS (s : St) (v w : Nat) (k : Rel) : Option (St × Bool) := do
+  let (s, r) ← compareS s v w
+  pure (s, k.holds r)
+
+/-- `equalsIgnoreCase(other, len)` -/
+def equalsICN (s : St) (v w : Nat) (n : Nat) : Option (St × Bool) := do
+  let (s, r) ← compareICN s v w n
+  pure (s, r == 0)
+
+/-- `HashSet<String>::append`: a token equal to an earlier one is not inserted again (insertion order is kept) -/
+def dedupToks (toks : List (List Byte)) : List (List Byte) :=
+  toks.foldl (fun acc t => if acc.contains t then acc else acc ++ [t]) []
+
+/-- `split(HashSet<String>& tokens, separators, skipEmpty)`: the loop of `split(List<String>&, …)` over a set -/
+def splitSet (s : St) (v : Nat) (seps : List Nat) (skipEmpty : Bool) : Option (St × List (List Byte)) := do
+  let (s, toks) ← split s v seps skipEmpty
+  pure (s, dedupToks toks)
+
+/-! ### the static helpers on C strings (arguments = the chars in front of the NUL) -/
+
+def sCompare (a b : List Nat) : Int := strcmpL a b
+def sCompareN (a b : List Nat) (n : Nat) : Int := strncmpL a b n
+def sCompareIC (a b : List Nat) : Int := strcmpL (a.map toLower) (b.map toLower)
+def sCompareICN (a b : List Nat) (n : Nat) : Int := strncmpL (a.map toLower) (b.map toLower) n
+/-- `static const char* find(const char* in, char c)`: the loop stops at the NUL, so `c = 0` is never found -/
+def sFindC (a : List Nat) (c : Nat) : Option Nat := if c = 0 then none else a.findIdx? (· == c)
+def sFindLastC (a : List Nat) (c : Nat) : Option Nat := if c = 0 then none else findLastIdx a c
+def sFind (a n : List Nat) : Option Nat := strstrL a n
+def sFindOneOf (a cs : List Nat) : Option Nat := strpbrkL a cs
+def sFindLast (a n : List Nat) : Option Nat := findLastLoop a n (a.length + 1) 0 none
+def sFindLastOf (a cs : List Nat) : Option Nat := findLastOfLoop a cs (a.length + 1) 0 none
+
+/-- `static bool startsWith(const char* in, const String& str)`: `compare(in, str.data->str, str.data->len) == 0`
+    (no C string view of `str` is taken) -/
+def sStartsWith (s : St) (inp : List Nat) (w : Nat) : Option Bool := do
+  let b ← contentVal s w
+  pure (strncmpL inp b b.length == 0)
+
+/-- a `char` as the signed value the comparisons of `isSpace` see -/
+def schar (c : Nat) : Int := if c ≥ 128 then (c : Int) - 256 else c
+
+/-- `isSpace(c)`: `(c >= 9 && c <= 13) || c == 32` with the bounds of the current String.hpp -/
+def isSpaceC (c : Nat) : Bool :=
+  ((Generated.isSpaceLo : Int) ≤ schar c ∧ schar c ≤ (Generated.isSpaceHi : Int)) ∨ schar c = (Generated.isSpaceX : Int)
+
+/-! `<cctype>` in the "C" locale on `(uchar)c` (assumption: C standard) -/
+def isDigitC (c : Nat) : Bool := 48 ≤ c ∧ c ≤ 57
+def isUpperC (c : Nat) : Bool := 65 ≤ c ∧ c ≤ 90
+def isLowerC (c : Nat) : Bool := 97 ≤ c ∧ c ≤ 122
+def isAlphaC (c : Nat) : Bool := isUpperC c || isLowerC c
+def isAlnumC (c : Nat) : Bool := isAlphaC c || isDigitC c
+def isXDigitC (c : Nat) : Bool := isDigitC c || (65 ≤ c ∧ c ≤ 70) || (97 ≤ c ∧ c ≤ 102)
+def isPrintC (c : Nat) : Bool := 32 ≤ c ∧ c ≤ 126
+def isPunctC (c : Nat) : Bool := isPrintC c && !isAlnumC c && c != 32
+
+/-! ### own-pointer arguments of `attach` and `printf` -/
+
+/-- `s.attach((const char*)s + off, n)` with `off + n ≤ length()`: the pointer is taken through the C string view;
+    `attach` releases the old data and stores a descriptor of the pointer.  Memory the String never owned (a
+    literal / attached memory that was terminated) stays valid: the result is a descriptor of the sub-range.  A
+    pointer into a heap block the call itself releases (or that another String may release later) has no
+    representation in the model: fault. -/
+def attachAlias (s : St) (v off n : Nat) : Option St := do
+  let s ← cview s v
+  let d0 ← desc s v
+  if off + n > d0.len then none
+  else
+    match d0.base with
+    | .reg r => some (setForeign s v r (d0.off + off) n)
+    | .nul => some (setEmpty s v)          -- a descriptor of `emptyData`'s zero word: observably the empty string
+    | .blk _ => none
+
+/-- `s.printf("<pre>%s<post>", (const char*)s)`: the pointer is taken first, `detach(0, 200)` may release the block it
+    points into (fault), or keep the same block (the output buffer then overlaps the argument: undefined by the C
+    standard, fault); otherwise `vsnprintf` reads the old storage -/
+def printfAlias (s : St) (v : Nat) (pre post : List Nat) : Option (St × Nat) := do
+  let s ← cview s v
+  let d0 ← desc s v
+  let s ← detach s v 0 Generated.printfBuf
+  let d1 ← desc s v
+  if d1.base = d0.base then none
+  else do
+    let arg ← cstrAt s d0.base d0.off
+    printfTail s v (pre ++ arg ++ post)
+
 end Nstd.Str
